@@ -56,6 +56,19 @@ def run(prop, tier, seed=0, extra=None):
         tn, ho, pi, ri = cid.split('|'); bad_records.add((tn, ho, int(pi), int(ri)))
     for cid, d in mism[:5]: inconclusive.append('symbolic record %s disagrees with the native run (not used for any verdict): %s' % (cid, json.dumps(d, default=str)[:400]))
     findings = runner.judge_all(templates, results)
+    # a record whose native run differs from the symbolic one gives no verdict through the encoding; the native run of the
+    # solver-proposed names is a run of the real code, though, and is judged against the oracle on its own
+    native_findings = []
+    for cid, d in mism:
+        tn, ho, pi, ri = cid.split('|'); n = nat.get(cid)
+        if not n or 'steps' not in n: continue
+        rec = results[(tn, ho)]['paths'][int(pi)]['records'][int(ri)]
+        nrec = dict(n, pattern=rec['pattern'], values=rec['values'])
+        try: fs = judge.judge_record(tmap[tn], nrec)
+        except Exception: continue
+        for kind, step, detail in fs:
+            native_findings.append({'template': tn, 'hash_order': ho, 'path': int(pi), 'pattern': rec['pattern'], 'values': rec['values'], 'kind': kind,
+                                    'prop': judge.KIND_PROP.get(kind, '?'), 'step': step, 'detail': detail, 'native_only': True})
     checks_build = None
     if prop == 'C08' and tier == 'thorough':
         # the same histories on the MIR dumped with --features checks (the crate's internal assertions compiled in)
@@ -91,7 +104,7 @@ def run(prop, tier, seed=0, extra=None):
         tmpl = tmap[f['template']]
         payload = {'property': prop, 'kind': 'template', 'template': tmpl.name, 'lang': tmpl.lang, 'analysis': tmpl.analysis, 'nnames': tmpl.nnames,
                    'ops': tmpl.ops, 'distinct': tmpl.distinct, 'values': f['values'], 'pattern': f['pattern'], 'finding': f, 'f0': F0_DEFAULT, 'named_max': NAMED_MAX,
-                   'history': tmpl.describe(), 'key': key}
+                   'history': tmpl.describe(), 'key': key, 'late': {str(k): v for k, v in (tmpl.late or {}).items()}, 'light': bool(getattr(tmpl, 'light', False))}
         path = common.write_replay(prop, key, payload)
         violations[key] = (key, path, text)
     if prop in ('C01', 'C02', 'C04', 'C05', 'C06', 'C08', 'C09', 'C13', 'C14', 'C15', 'C10'):   # kinds of judge.KIND_PROP
@@ -101,6 +114,11 @@ def run(prop, tier, seed=0, extra=None):
             if rec is None: continue      # record not validated natively: no verdict from it
             key = finding_key(f, rec.get('panic') if rec else None)
             report(f, key, '%s in template %s [%s] names=%s step=%s detail=%s' % (f['kind'], f['template'], tmap[f['template']].describe(), f['values'], f['step'], json.dumps(f['detail'], default=str)[:200]))
+        for f in native_findings:
+            if f['prop'] != prop: continue
+            key = 'native:' + ('panic:%s' % f['template'] if f['kind'] == 'panic' else finding_key(f))
+            report(f, key, '[native run of solver-proposed names; the symbolic record differs] %s in template %s [%s] names=%s step=%s detail=%s' % (
+                f['kind'], f['template'], tmap[f['template']].describe(), f['values'], f['step'], json.dumps(f['detail'], default=str)[:200]))
     for f in findings_checks:
         rp = None
         key = ('checks-build:' + (('%s:%s' % (panic_key(None), f['template'])) if f['kind'] == 'panic' else '%s:%s:step%s' % (f['template'], f['kind'], f['step'])))
@@ -221,7 +239,8 @@ def replay(prop, path):
     """re-runs a recorded counterexample natively (dev and release builds of the real crate) and judges it with the oracle"""
     from mirsmt.tmpl import Template
     p = json.load(open(path))
-    t = Template(p['template'], p['lang'], p['nnames'], [tuple(judge.tuple_term(o)) for o in p['ops']], p.get('analysis', '()'), p.get('distinct'))
+    t = Template(p['template'], p['lang'], p['nnames'], [tuple(judge.tuple_term(o)) for o in p['ops']], p.get('analysis', '()'), p.get('distinct'), late={int(k): v for k, v in (p.get('late') or {}).items()} or None)
+    if p.get('light'): t.light = True
     ok = True
     for prof in ('release', 'dev'):
         out = native.run_cases(native.case_text('replay', t, p['values'], p.get('f0', F0_DEFAULT), p.get('named_max', NAMED_MAX)), prof)
